@@ -213,6 +213,7 @@ class ActNorm(Transform):
         with torch.no_grad():
             std = inputs.std(dim=0)
             mu = (inputs / std).mean(dim=0)
-            self.log_scale.data = -torch.log(std)
-            self.shift.data = -mu
+            # Keep the parameters' own dtype / device (the statistics have the inputs').
+            self.log_scale.data = (-torch.log(std)).to(self.log_scale)
+            self.shift.data = (-mu).to(self.shift)
             self.initialized.data = torch.tensor(True, dtype=torch.bool)
